@@ -2,7 +2,7 @@
 # Mutation self-test of the THIRD part of the Go -> Lean translation (hash tables, parser
 # init / Reset / Shrink; tools/extract/code_gslice.go) and of LzProofs/GenHashProps*.lean.
 #
-# For every mutant: copy the repository to <verif>/scratch-repo, apply one small semantic
+# For every mutant: copy the repository to a fresh directory under /tmp, apply one small semantic
 # change, regenerate LzModel/Generated/Code*.lean from the copy into a COPY of the lake
 # project, and build the GenHashProps modules there.
 #   kind proof    : the build must FAIL (the failing theorems are listed)
@@ -19,7 +19,7 @@ REPO="${REPO:-/repo}"
 SCRATCH="$(mktemp -d /tmp/pf-genhash-selftest.XXXXXX)"
 LEAN="$SCRATCH/lean"
 GEN="$LEAN/LzModel/Generated"
-MUT="$HERE/scratch-repo"
+MUT="$(mktemp -d /tmp/pf-mutrepo.XXXXXX)/scratch-repo"   # scratch copies of the library live outside /verif and /repo
 EXTRACT="$SCRATCH/extract"
 TARGETS="LzProofs.GenHashProps LzProofs.GenHashPropsDict LzProofs.GenHashPropsBucket"
 bad=0; good=0; total=0
